@@ -11,6 +11,9 @@ func GetQuote(content bytes.Bytes, position bytes.Index) string {
 
 func quote(content bytes.Bytes, position bytes.Index) string {
 	const maxLength = 200
+	if content.Len() == 0 || position > content.LenIndex() {
+		return "" // the source sub-string cannot be determined
+	}
 	begin := content.BeginningOfLine(position)
 	end := content.EndOfLine(position)
 	if end-begin > maxLength {
